@@ -186,7 +186,9 @@ pub fn minimise(
                 let op = best.threads[which][i];
                 let simpler = match op {
                     Op::Drain(m, e) if e > 0 => Some(Op::Drain(m, 0)),
-                    Op::Chunk(n, k) if k != usize::MAX => Some(Op::Chunk(n, usize::MAX)),
+                    Op::Chunk(n, k) if k != usize::MAX && n <= 64 => {
+                        Some(Op::Chunk(n, usize::MAX))
+                    }
                     Op::BufNext(k) if k != usize::MAX => Some(Op::BufNext(usize::MAX)),
                     _ => None,
                 };
@@ -234,7 +236,7 @@ pub fn minimise(
             }
         }
         // 5. length (not for arrays: fixed set of sizes)
-        if !matches!(best.kind, Kind::Array | Kind::ArrayRef) {
+        if !matches!(best.kind, Kind::Array | Kind::ArrayRef) && best.range_end.is_none() {
             while best.len > 0 && !sh.expired() {
                 let mut c = best.clone();
                 c.len -= 1;
